@@ -21,7 +21,8 @@ TYPE_OPS = ["get_pointer", "get_reference", "get_rvalue_reference", "get_array",
             "get_as_type_id", "get_transfer_from_linkage", "get_transfer_from_convention", "get_transfer"]
 NAME_OPS = ["get_identifier", "get_operator", "get_suffix", "get_conversion", "get_ctor_name", "get_dtor_name",
             "get_guide_name", "get_template_id", "get_logogram", "get_symbol", "get_label", "get_this",
-            "get_literal", "make_literal", "get_linkage", "get_calling_convention", "eq_linkage", "eq_callconv",
+            "get_literal", "make_literal", "get_linkage", "get_calling_convention", "get_identifier_s", "get_operator_s",
+            "get_linkage_s", "get_literal_s", "make_literal_s", "eq_linkage", "eq_callconv",
             "eq_transfer", "eq_logogram"]
 BUILTIN_WORDS = ["void", "bool", "char", "signed char", "unsigned char", "wchar_t", "char8_t", "char16_t",
                  "char32_t", "short", "unsigned short", "int", "unsigned int", "long", "unsigned long", "long long",
@@ -95,6 +96,9 @@ def jobs_for(pid, tier):
                                         "get_template_id", "get_identifier"],
                                        3 if q else 4, types=(12,), ids=(49, 67), words=("foo", "default"),
                                        prelude="PreludeAtoms")))
+        J.append(("overloads", base_consts(["get_identifier", "get_identifier_s", "get_operator", "get_operator_s", "get_linkage",
+                                            "get_linkage_s", "get_literal", "get_literal_s", "make_literal_s", "eq_linkage"],
+                                           3, types=(12,), words=("C", "int", "x") if q else ("C", "C++", "int", "x"))))
         J.append(("values", base_consts(["get_linkage", "get_calling_convention", "get_transfer", "eq_linkage",
                                          "eq_callconv", "eq_transfer", "get_logogram", "eq_logogram"],
                                         3, words=("C", "Java", "") if q else ("C", "C++", "Java", ""), types=())))
